@@ -759,6 +759,53 @@ func (s *Summarizer) submatchOf(v ssa.Value, env termEnv) (*RegexConst, Term, bo
 
 func atom(a *LAtom) *Form { return &Form{Op: "atom", Atom: a} }
 
+// setMemberForm: lk is set[term] with set a package-level map[string]bool (directly, or a parameter bound to one at
+// the call being summarised) whose literal is its only assignment.
+func (s *Summarizer) setMemberForm(lk *ssa.Lookup, env termEnv) *Form {
+	if b, ok := lk.Type().Underlying().(*types.Basic); !ok || b.Kind() != types.Bool {
+		return nil
+	}
+	m := s.resolveValue(lk.X)
+	for i := 0; i < 3; i++ {
+		if ct, ok := m.(*ssa.ChangeType); ok {
+			m = s.resolveValue(ct.X)
+			continue
+		}
+		break
+	}
+	u, ok := m.(*ssa.UnOp)
+	if !ok || u.Op != token.MUL {
+		return nil
+	}
+	g, ok := u.X.(*ssa.Global)
+	if !ok || g.Pkg == nil || !strings.HasPrefix(g.Pkg.Pkg.Path(), modulePath) {
+		return nil
+	}
+	t, ok := s.termOf(lk.Index, env)
+	if !ok {
+		return nil
+	}
+	if len(storesToGlobal(s.prog, g)) > 0 {
+		return nil
+	}
+	lit, err := s.prog.VarLit(relOf(g.Pkg.Pkg.Path()), cname(g))
+	if err != nil {
+		return nil
+	}
+	set, err := lit.StringBoolSet()
+	if err != nil {
+		return nil
+	}
+	var alts []*Form
+	for _, w := range sortedKeys(set) {
+		alts = append(alts, atom(&LAtom{Kind: "eq", Str: w, Term: t, Desc: fmt.Sprintf("%s==%q", termStr(t), w)}))
+	}
+	if len(alts) == 0 {
+		return fFalse()
+	}
+	return fOr(alts...)
+}
+
 // ValueForm converts a boolean SSA value.
 func (s *Summarizer) ValueForm(v ssa.Value, env termEnv) *Form {
 	f := s.valueForm(v, env)
@@ -793,6 +840,14 @@ func (s *Summarizer) valueForm(v ssa.Value, env termEnv) *Form {
 		}
 	case *ssa.Phi:
 		return s.phiForm(x, env)
+	case *ssa.Lookup:
+		// set[term] for a package-level set of strings (map[string]bool literal that nothing else assigns): the term
+		// is one of the words of the set
+		if !x.CommaOk {
+			if f := s.setMemberForm(x, env); f != nil {
+				return f
+			}
+		}
 	case *ssa.BinOp:
 		return s.binopForm(x, env)
 	case *ssa.Call:
